@@ -10,7 +10,23 @@ use crate::CAP;
 pub struct Map<K, V, const SORTED: bool> {
     /// boxed: each map's storage is its own heap object, so that a struct embedding several
     /// maps does not become one large object for CBMC (measured: 2.5x fewer variables, 60x less solver time)
-    inner: Box<UnsafeCell<Inner<K, V>>>,
+    ///
+    /// feature `inline`: the storage lives in the Map value itself. A heap object is an untyped byte array for CBMC: every field
+    /// access becomes a byte_extract at an offset and NOTHING is constant-propagated (a fully concrete membership transition cost
+    /// 15 M SAT variables); an inline struct is split into one symbol per field. Units with few, concrete maps use `inline`.
+    inner: Store<Inner<K, V>>,
+}
+#[cfg(not(feature = "inline"))]
+type Store<T> = Box<UnsafeCell<T>>;
+#[cfg(feature = "inline")]
+type Store<T> = UnsafeCell<T>;
+#[cfg(not(feature = "inline"))]
+fn store<T>(v: T) -> Store<T> {
+    Box::new(UnsafeCell::new(v))
+}
+#[cfg(feature = "inline")]
+fn store<T>(v: T) -> Store<T> {
+    UnsafeCell::new(v)
 }
 
 struct Inner<K, V> {
@@ -38,6 +54,19 @@ pub mod hash_map {
 fn empty<T>() -> [Option<T>; CAP] {
     [const { None }; CAP]
 }
+/// element-wise clone with a loop counter. `<[T; N] as Clone>::clone` goes through `array::try_from_fn` (MaybeUninit + raw pointer
+/// writes), after which CBMC can no longer constant-propagate the contents: a fully CONCRETE membership transition cost 15 M SAT variables.
+fn clone_slots<T: Clone>(a: &[Option<T>; CAP]) -> [Option<T>; CAP] {
+    let mut out: [Option<T>; CAP] = empty();
+    let mut i = 0;
+    while i < CAP {
+        if let Some(v) = &a[i] {
+            out[i] = Some(v.clone());
+        }
+        i += 1;
+    }
+    out
+}
 
 impl<K, V, const S: bool> Default for Map<K, V, S> {
     fn default() -> Self {
@@ -48,7 +77,7 @@ impl<K, V, const S: bool> Default for Map<K, V, S> {
 impl<K: Clone, V: Clone, const S: bool> Clone for Map<K, V, S> {
     fn clone(&self) -> Self {
         let i = unsafe { &*self.inner.get() };
-        Map { inner: Box::new(UnsafeCell::new(Inner { havoc: i.havoc, n: i.n, ids: i.ids, keys: i.keys.clone(), vals: i.vals.clone() })) }
+        Map { inner: store(Inner { havoc: i.havoc, n: i.n, ids: i.ids, keys: clone_slots(&i.keys), vals: clone_slots(&i.vals) }) }
     }
 }
 
@@ -60,12 +89,12 @@ impl<K, V, const S: bool> core::fmt::Debug for Map<K, V, S> {
 
 impl<K, V, const S: bool> Map<K, V, S> {
     pub fn new() -> Self {
-        Map { inner: Box::new(UnsafeCell::new(Inner { havoc: false, n: 0, ids: [0; CAP], keys: empty(), vals: empty() })) }
+        Map { inner: store(Inner { havoc: false, n: 0, ids: [0; CAP], keys: empty(), vals: empty() }) }
     }
 
     /// A map standing for an arbitrary map of arbitrary size (havoc mode).
     pub fn arbitrary_unbounded() -> Self {
-        Map { inner: Box::new(UnsafeCell::new(Inner { havoc: true, n: 0, ids: [0; CAP], keys: empty(), vals: empty() })) }
+        Map { inner: store(Inner { havoc: true, n: 0, ids: [0; CAP], keys: empty(), vals: empty() }) }
     }
 
     #[allow(clippy::mut_from_ref)]
@@ -378,7 +407,10 @@ impl<K: PartialOrd + Clone, V, const S: bool> IntoIterator for Map<K, V, S> {
     type Item = (K, V);
     type IntoIter = IntoIter<K, V, S>;
     fn into_iter(self) -> IntoIter<K, V, S> {
+        #[cfg(not(feature = "inline"))]
         let inner = (*self.inner).into_inner();
+        #[cfg(feature = "inline")]
+        let inner = self.inner.into_inner();
         assert!(!inner.havoc, "vcoll: iteration over an unbounded symbolic map is not modelled");
         IntoIter { inner, pos: 0 }
     }
